@@ -674,6 +674,20 @@ func (ev *gemEval) assign(s *ast.AssignStmt, e *env) []Node {
 					continue
 				}
 				ev.bind(obj, s.Rhs[i], e)
+				// tgt := parser.Range{From: r.From, …}: the same as the field assignments
+				if cl, ok := ast.Unparen(s.Rhs[i]).(*ast.CompositeLit); ok {
+					for _, el := range cl.Elts {
+						if kv, ok := el.(*ast.KeyValueExpr); ok {
+							if kid, ok := kv.Key.(*ast.Ident); ok && (kid.Name == "From" || kid.Name == "To") {
+								if rs, ok := ast.Unparen(kv.Value).(*ast.SelectorExpr); ok && rs.Sel.Name == kid.Name {
+									if rid, ok := rs.X.(*ast.Ident); ok {
+										out = append(out, RangeSet{Tgt: obj, Field: kid.Name, Src: ev.info().ObjectOf(rid), Pos: s.Pos()})
+									}
+								}
+							}
+						}
+					}
+				}
 			case *ast.SelectorExpr:
 				// g.childrenVar = g.createVariableName() ; tgt.From = r.From
 				if l.Sel.Name == "From" || l.Sel.Name == "To" {
